@@ -261,3 +261,7 @@ Record entry := { e_two_d : bool; e_module : string; e_method : string; e_param 
 Inductive aevent := AValidate | APad | AUse.
 Record aentry := { a_two_d : bool; a_module : string; a_fn : string; a_arg : string;
                    a_events : list aevent }.
+
+(* validation call sites and whether they forward the fitter's check_finite flag *)
+Record centry := { c_two_d : bool; c_module : string; c_fn : string; c_callee : string;
+                   c_forwarded : bool }.
